@@ -398,14 +398,16 @@ fn build_corpus() -> Corpus {
         many.push(p);
     }
     hid_streams.push(many);
-    // 20 000 unfinished initialisation packets on channels whose ids agree in their low (resp. high) 16
+    // 60 000 unfinished initialisation packets on channels whose ids agree in their low (resp. high) 16
     // bits: whatever table the receiver keeps them in, the ids are the peer's choice
     for shift in [16u32, 0] {
         let mut aligned = Vec::new();
-        for ch in 0..20_000u32 {
+        for ch in 0..60_000u32 {
             let mut p = vec![0u8; 64];
-            let id = if shift == 16 { ch << 16 | 0x0001 } else { (ch.swap_bytes() >> 16).swap_bytes() | ch << 16 };
-            p[..4].copy_from_slice(&(if shift == 16 { ch << 16 } else { id }).to_be_bytes());
+            // (the receiver reads the id in native byte order: one stream per byte order, so that in one of
+            // them the ids as the receiver sees them agree in their low 16 bits, in the other in their high 16)
+            let id = ch << 16;
+            p[..4].copy_from_slice(&(if shift == 16 { id.to_be_bytes() } else { id.to_le_bytes() }));
             p[4] = 0x90;
             p[5] = 0x00;
             p[6] = 58;
@@ -947,7 +949,9 @@ impl Family for C15Family {
             let mut r = Rng::new(run_seed(master, "C15", index));
             let d = r.usize(DECODERS.len());
             if DECODERS[d] == "hid" {
-                let b = r.usize(c.hid_streams.len());
+                // (the very long streams run in the sweep only)
+                let short: Vec<usize> = (0..c.hid_streams.len()).filter(|i| c.hid_streams[*i].len() <= 5_000).collect();
+                let b = *r.pick(&short);
                 let n = c.hid_streams[b].len() as u32;
                 let k = r.range(1, 4);
                 let hid_faults = (0..k)
